@@ -6,12 +6,12 @@ PROP = dict(
     theorems=["C04_spec_sound", "C04_static_table_ok", "C04_input_repr_table_ok", "C04_output_repr_table_ok",
               "C04_locates_tx_static", "C04_locates_input_static", "C04_locates_output",
               "C04_none_tx", "C04_none_input", "C04_none_output",
-              "C04_locates_sections", "C04_locates_elements", "C04_locates_script"],
+              "C04_locates_sections", "C04_locates_elements", "C04_locates_script",
+              "C04_cached", "C04_locates_body_vectors", "C04_locates_body_vector_starts", "C04_locates_input_dynamic_const"],
     open_statements=[
-        "C04_locates_body_vectors_statement: storage_slots_offset_at / proof_set_offset_at (and the two vector starts) = the specification's positions - not proved; executed on every correspondence case",
-        "C04_locates_input_dynamic_statement: the value-dependent offsets inside an input (data, predicate, predicate data; relative to the input) - not proved; executed on every case",
-        "C04_predicate_padded_statement: inputs_predicate_offset_at(i) = (position of the predicate bytes, 8-padded length) - not proved; executed on every case",
-        "C04_cached_statement: answers read from cached CommonMetadata = answers computed without it - not proved; executed on every case (check_off) and checked on the real code by the oracle",
+        "C04_locates_input_dynamic_after_statement: the two offsets inside an input that come after another byte vector (predicate after message data; predicate data after the predicate) - not proved "
+        "(the generic lemmas locate_fields_dynamic / input_dynamic_at / dyn_small / code_dyn / bytes_dyn of Offsets/OffsetInput.v reduce it to one arithmetic step per variant); executed on every case",
+        "C04_predicate_padded_statement: inputs_predicate_offset_at(i) = (position of the predicate bytes, 8-padded length) - not proved; executed on every case and checked on the real code by the oracle",
     ],
     translators=["txconsts", "preparesign"],
     trusted_base=[
@@ -40,9 +40,11 @@ PROP = dict(
                 "OutputRepr) are proved equal to the schemas' prefix sums for every typed value - so every static field of a transaction, input and output is located exactly, and None is reported "
                 "exactly for absent fields; (3) for the five chargeable kinds the value-dependent section offsets (policies/body end, inputs, outputs, witnesses), every "
                 "input / output / witness element offset (Some exactly for indices in range) and the script / script data offsets are proved to be the specification's positions whenever the encoding is "
-                "shorter than 2^64 bytes - the model's saturating sums of size() are shown to be the prefix sums of encoder lengths; (4) the remaining value-dependent offsets (storage slots, proof "
-                "entries, offsets inside an input, predicate offset+padded length, cached metadata) are modelled, executed on every answer, and open."),
-    level_note=("13 theorems proved, Closed under the global context. Open: four statements (storage-slot / proof-entry offsets, offsets inside an input, predicate offset + padded length, cached = uncached), "
+                "shorter than 2^64 bytes - the model's saturating sums of size() are shown to be the prefix sums of encoder lengths; (4) storage-slot and proof-entry offsets and the vector starts are proved the same way; (5) offsets "
+                "read from cached metadata equal the offsets computed without it for EVERY function and index, whatever (possibly stale) metadata the transaction carried before precompute - no typing "
+                "hypothesis; (6) inside an input the data / coin-predicate / first-predicate offsets are proved; the two offsets that follow another byte vector and inputs_predicate_offset_at's padded "
+                "length are modelled, executed on every answer, and open."),
+    level_note=("17 theorems proved, Closed under the global context. Open: two statements (predicate-after-data / predicate-data-after-predicate offsets inside an input; inputs_predicate_offset_at with padded length), "
                 "executed per case and checked on the real code by the oracle, not proved."),
     technique="Coq proof (generic induction over the schema universe; table-vs-schema obligations by computation + value-independence lemma) + translator consts/tables with source pins + differential model/impl run + slice oracle",
     design_ref="6/C04",
